@@ -24,7 +24,8 @@ LEVEL_TEXT = (
 LEVEL_NOTE = (
     "Trusted: CPython, sys.monitoring, tracemalloc. Judged: outcome is (frame, rest) with len(data)-len(rest) == announced total length "
     ">= 6, or CouldNotParseKNXIP; IncompleteKNXIPFrame only if octet 0 is 06h, octet 1 is 10h (as far as present) and fewer octets than "
-    "max(6, announced) are present; LINE events <= 3000+300*len; heap peak <= 64 KiB + 256*len (widened from the planned 64*len: "
+    "max(6, announced) are present; tail invariance: frame+tail (1 octet, 6 octets, another frame, '06 10..', long noise) must give the same verdict "
+    "class, an equal frame (header, body, to_knx bytes), rest == tail, and the same exception class for rejections; LINE events <= 3000+300*len; heap peak <= 64 KiB + 256*len (widened from the planned 64*len: "
     "legitimate frames made of 2-octet DIBs need ~70 B/octet). Not judged: whether a tolerant body parser accepts odd content, an "
     "unknown service type in a 4..5 octet prefix (recorded). Wall clock (10 s/case backstop) only yields inconclusive."
 )
@@ -138,7 +139,108 @@ def judge(ctx: Any, label: str, data: bytes) -> str:
             )
     ctx.count("outcome_" + (outcome if not outcome.startswith("raises-") else "other-exception"))
     ctx.distinct((svc, label, min(n, 48), outcome))
+    if outcome not in ("step-budget", "incomplete", "incomplete-bad") and n >= 1:
+        # all five tails for valid frames, two for the structured hostile ones, one for every 4th (quick) / 2nd of the rest
+        n_tails = 5 if label == "valid" else (2 if label in _TWO_TAILS else int(ctx.evaluations % ctx.scale(4, 2) == 0))
+        if n_tails or (n >= 6 and data[0] == 6 and 6 <= data[4] * 256 + data[5] < n):
+            _tail_invariance(ctx, label, data, res, n_tails)
     return outcome
+
+
+_TWO_TAILS = {"hostile-structure", "random-body", "trailing-octets-in-frame", "truncated-consistent", "empty-body", "many-minimal-dibs"}
+_TAIL_FRAME = bytes.fromhex("0610042100" + "0a" + "04010000")  # a valid TunnellingAck
+_NOISE = bytes((i * 37 + 11) & 0xFF for i in range(300))
+
+
+def _tails(k: int, data: bytes) -> list[tuple[str, bytes]]:
+    """The five tail kinds; `k` varies their content deterministically."""
+    return [
+        ("1-octet", bytes(((k * 7 + 1) & 0xFF,))),
+        ("6-octets", bytes(((k * 31 + j * 53 + 5) & 0xFF) for j in range(6))),
+        ("valid-frame", _TAIL_FRAME if k % 2 else data[: max(6, data[4] * 256 + data[5])] if len(data) >= 6 else _TAIL_FRAME),
+        ("header-start", b"\x06\x10" + bytes(((k * 3) & 0xFF,))[: k % 2] ),
+        ("long-noise", _NOISE[k % 7 :]),
+    ]
+
+
+def _snapshot(res: dict[str, Any]) -> tuple[Any, ...]:
+    """What must not depend on octets beyond the announced length."""
+    exc = res["exc"]
+    if exc is not None:
+        return ("exception", type(exc).__name__)
+    result = res["result"]
+    if not (isinstance(result, tuple) and len(result) == 2 and isinstance(result[0], KNXIPFrame)):
+        return ("non-frame", repr(result)[:80])
+    frame = result[0]
+    try:
+        wire: Any = frame.to_knx()
+    except Exception as err:  # noqa: BLE001 - tolerant parses may not be serialisable; then the failure must be the same
+        wire = "to_knx-raises-" + type(err).__name__
+    return ("frame", frame.header.service_type_ident, frame.header.total_length, wire, frame.body)
+
+
+def _same_snapshot(a: tuple[Any, ...], b: tuple[Any, ...]) -> bool:
+    if a[0] != b[0] or len(a) != len(b):
+        return False
+    if a[0] != "frame":
+        return a == b
+    return a[1:4] == b[1:4] and g.body_equal(a[4], b[4])
+
+
+def _tail_invariance(ctx: Any, label: str, data: bytes, res: dict[str, Any], n_tails: int) -> None:
+    """A parse may not depend on octets beyond the announced total length: parsing frame+tail must give the same verdict
+    class, an equal frame (header, body, to_knx bytes) and rest == tail exactly; a rejection must keep its exception class."""
+    n = len(data)
+    svc = g.service_label(data)
+    announced = data[4] * 256 + data[5] if n >= 6 else None
+    readable = announced is not None and data[0] == 6 and announced >= 6
+    cases: list[tuple[str, bytes, dict[str, Any]]] = []
+    if readable and n > announced:
+        # the input already is frame + tail: compare it with the frame alone
+        base = data[:announced]
+        base_res = g.budgeted(KNXIPFrame.from_knx, (base,), LINES_BASE + LINES_PER_OCTET * len(base), wall_s=10, heap=False)
+        cases.append(("as-generated", data[announced:], res))
+    else:
+        base, base_res = data, res
+    if isinstance(base_res["exc"], (g.StepBudgetExceeded, g.WallBackstop, IncompleteKNXIPFrame)):
+        return
+    expect = _snapshot(base_res)
+    k = ctx.counters.get("tail_parses", 0)
+    kinds = _tails(k, base)
+    for j in range(n_tails):
+        name, tail = kinds[(k + j) % len(kinds)]
+        if not tail:
+            continue
+        r = g.budgeted(KNXIPFrame.from_knx, (base + tail,), LINES_BASE + LINES_PER_OCTET * (len(base) + len(tail)), wall_s=10, heap=False)
+        cases.append((name, tail, r))
+    for name, tail, r in cases:
+        ctx.ev()
+        ctx.count("tail_parses")
+        ctx.count("tail_kind_" + name)
+        if isinstance(r["exc"], g.WallBackstop):
+            ctx.inconclusive("wall-clock backstop fired in a frame+tail parse")
+            continue
+        got = ("exception", "step-budget-exceeded") if isinstance(r["exc"], g.StepBudgetExceeded) else _snapshot(r)
+        w = _witness(label, base, tail=tail[:64], tail_kind=name, tail_len=len(tail), alone=repr(expect[:4])[:200], with_tail=repr(got[:4])[:200])
+        if not _same_snapshot(expect, got):
+            if expect[0] == "frame" and got[0] == "frame":
+                mech = f"{svc}-frame-content-depends-on-octets-after-announced-length"
+            elif expect[0] == "frame":
+                mech = f"{svc}-valid-frame-rejected-when-octets-follow"
+            elif got[0] == "frame":
+                mech = f"{svc}-rejected-frame-accepted-when-octets-follow"
+            else:
+                mech = f"{svc}-exception-class-depends-on-octets-after-announced-length"
+            ctx.violation(mech, w, f"KNXIPFrame.from_knx({base[:24].hex()}.. + {len(tail)} more octets [{name}]) gives {repr(got[:3])[:120]}, "
+                          f"the same {len(base)} octets alone give {repr(expect[:3])[:120]}: the parse depends on octets beyond the announced length")
+            ctx.distinct((svc, "tail", name, "differs"))
+            continue
+        if got[0] == "frame" and bytes(r["result"][1]) != tail:
+            ctx.violation(f"{svc}-rest-differs-from-octets-after-announced-length", w,
+                          f"from_knx(frame + {len(tail)} octets) returned a rest of {len(r['result'][1])} octets that is not the appended tail")
+            continue
+        ctx.count("tail_invariant_" + got[0])
+        ctx.distinct((svc, "tail", name, got[0]))
 
 
 def _selftest(ctx: Any) -> None:
@@ -202,6 +304,8 @@ def run(ctx: Any) -> None:
         "heap_peak_samples",
         "budget_selftest_aborted_endless_loop",
         "valid_frames_parsed",
+        "tail_invariant_frame",
+        "tail_invariant_exception",
     )
     rng = ctx.rng
     _selftest(ctx)
